@@ -114,24 +114,29 @@ def install():
 
     def release(self, required_effort, effort_before_slot, forward):
         out = orig_release(self, required_effort, effort_before_slot, forward)
-        res = getattr(self, "_lastBookedResource", None)
-        rs = res.data[self.scenarioIdx] if (res is not None and res.data) else None
-        kept = None
-        if rs is not None:
-            for t, s in rs.slotTaskUsage.get(self.currentSlotIdx, []):
-                if t == self.property:
-                    kept = s
-        emit(
-            "Finish",
-            sc=self.scenarioIdx,
-            task=self.property.fullId,
-            res=res.fullId if res is not None else None,
-            slot=self.currentSlotIdx,
-            kept=kept,
-            used=rs.slotSecondsUsed.get(self.currentSlotIdx) if rs is not None else None,
-            date=_secs(self.project, out[0]),
-            done=self.doneEffort,
-        )
+        last = getattr(self, "_lastBookedResource", None)
+        members = [r for r in (getattr(self, "_selectedResources", None) or []) if r is not last]
+        members.append(last)
+        for res in members:
+            rs = res.data[self.scenarioIdx] if (res is not None and res.data) else None
+            kept = None
+            if rs is not None:
+                for t, s in rs.slotTaskUsage.get(self.currentSlotIdx, []):
+                    if t == self.property:
+                        kept = s
+            if kept is None and res is not last:
+                continue
+            emit(
+                "Finish",
+                sc=self.scenarioIdx,
+                task=self.property.fullId,
+                res=res.fullId if res is not None else None,
+                slot=self.currentSlotIdx,
+                kept=kept,
+                used=rs.slotSecondsUsed.get(self.currentSlotIdx) if rs is not None else None,
+                date=_secs(self.project, out[0]),
+                done=self.doneEffort,
+            )
         return out
 
     TS.TaskScenario._calculatePreciseEndTimeAndRelease = release
